@@ -2,6 +2,6 @@ SPECIFICATION Spec
 CONSTANTS
   MaxLen = 5
   MaxLenJ = 3
-  MaxLenJ2 = 3
+  MaxLenJ2 = 2
 INVARIANT Inv
 CHECK_DEADLOCK FALSE
